@@ -211,6 +211,26 @@ class C05(CheckBase):
                     ta, sa = divmod(lba, spt)
                     tb_, sb_ = divmod(lba, dspt)
                     cmds.append((["dump-sector", str(d), str(ta), str(sa)], ["dump-sector", str(d), str(tb_), str(sb_)]))
+            # extract-files of the first volume of every side: same set of files with the same contents
+            for d, s in enumerate(surfaces):
+                vsel = "%d%s" % (d, s["volumes"][0]["label"] or "")
+                da, db = sb.mkdir("xa%d" % d), sb.mkdir("xb%d" % d)
+                ra = runtool.run(A + ["--drive", vsel, "extract-files", da], sb.path, timeout=30)
+                rb = runtool.run(B + ["--drive", vsel, "extract-files", db], sb.path, timeout=30)
+                v.evaluations += 2
+                if rb.status == 0:
+                    def tree(p):
+                        import os
+                        out = {}
+                        for f in sorted(os.listdir(p)):
+                            with open(os.path.join(p, f), "rb") as fh:
+                                out[f] = fh.read()
+                        return out
+                    if ra.status != 0 or tree(da) != tree(db):
+                        v.fail("C05/differs-side1" if d else "C05/differs",
+                               "extract-files of drive %s differs between the %s image and the sector dump" % (vsel, case["kind"]),
+                               {"flux": ra.brief(), "dump": rb.brief()})
+                        return v
             for ca, cb in cmds:
                 ra = runtool.run(A + ca, sb.path, timeout=30)
                 rb = runtool.run(B + (cb or ca), sb.path, timeout=30)
